@@ -187,7 +187,7 @@ theorem unfoldItems_fuel_mono {T : Types} {n m : Nat} (h : n ≤ m) {E : List (S
 theorem AInv.of_same {W : Colls} {s s' : AggState} (h : AInv W s) (he : Ext s.agg.types s'.agg.types)
     (hd : s'.agg.types.defined = s.agg.types.defined) (hr : s'.agg.remapped = s.agg.remapped)
     (hc : s'.chk = s.chk) : AInv W s' :=
-  ⟨⟨by rw [hr]; exact h.rinv.sound.ext he, h.rinv.closed.same_defined he hd⟩, by rw [hc]; exact h.cinv.ext he,
+  ⟨⟨by rw [hr]; exact h.rinv.sound.ext he, h.rinv.closed.same_defined he hd, by rw [hr]; exact h.rinv.shape⟩, by rw [hc]; exact h.cinv.ext he,
     he.resources.trans h.nores⟩
 
 theorem setInterface_congr {T : Types} {e : Nat} {ti : Interface} (hti : T.interfaces[e]? = some ti)
@@ -298,7 +298,50 @@ theorem keepExport_spec {s : AggState} {F : Forest} (hT : TState W e s F) {ti : 
         exact .inr (leaf_ty_hasId_uid sk g (eq_of_beq he).symm hid)
       · exact .inl hg
     · -- AInv of the new state
-      refine ⟨⟨?_, hT.ainv.rinv.closed⟩, hc', hT.ainv.nores⟩
+      refine ⟨⟨?_, hT.ainv.rinv.closed, ?_⟩, hc', hT.ainv.nores⟩
+      rotate_left
+      · -- the recorded replacement has the shape of the source kind
+        refine hT.ainv.rinv.shape.insert _ _ (fun d hd => ?_) (fun f hf => ?_)
+        · cases sk with
+          | value v =>
+            cases tk with
+            | value v0 => exact ⟨v0, rfl⟩
+            | func f0 =>
+              exfalso
+              obtain ⟨a, p, r, hsh⟩ := unfoldFunc_shape _ _ f0 _ (shape_func _ (m - 1) f0 ts (by
+                cases m with
+                | zero => simp [Types.unfoldKind] at htf
+                | succ m => exact htf))
+              cases hC_fuel' : types.fuel with
+              | zero => rw [hC_fuel'] at hts; simp [Types.unfoldKind] at hts
+              | succ N =>
+                rw [hC_fuel'] at hts
+                simp only [Types.unfoldKind] at hts
+                obtain ⟨x, _, hx'⟩ := Option.map_eq_some_iff.1 hts
+                rw [hsh] at hx'; cases hx'
+            | _ => cases ltk
+          | func f0 => simp [GTy.mk', ItemKind.ty] at hd
+          | _ => cases lk
+        · cases sk with
+          | func f0 =>
+            cases tk with
+            | func f1 => exact ⟨f1, rfl⟩
+            | value v0 =>
+              exfalso
+              cases hC_fuel' : types.fuel with
+              | zero => rw [hC_fuel'] at hts; simp [Types.unfoldKind] at hts
+              | succ N =>
+                rw [hC_fuel'] at hts
+                obtain ⟨a, p, r, hsh⟩ := unfoldFunc_shape _ _ f0 _ (shape_func _ N f0 ts hts)
+                cases m with
+                | zero => simp [Types.unfoldKind] at htf
+                | succ m =>
+                  simp only [Types.unfoldKind] at htf
+                  obtain ⟨x, _, hx'⟩ := Option.map_eq_some_iff.1 htf
+                  rw [hsh] at hx'; cases hx'
+            | _ => cases ltk
+          | value v => simp [GTy.mk', ItemKind.ty] at hf
+          | _ => cases lk
       intro C hC
       obtain ⟨k1, k2⟩ := hT.ainv.rinv.sound C hC
       refine ⟨fun d v' hg t ht => ?_, fun f f' hg t ht => ?_⟩
